@@ -2,6 +2,7 @@ import Bandit.Drv.Core
 import Bandit.Drv.Metrics
 import Bandit.Drv.BaselineTool
 import Bandit.Drv.Baseline
+import Bandit.Drv.Format
 /-!
 # Line-protocol driver: one JSON request per line on stdin, one JSON answer per line on stdout.
 -/
@@ -10,7 +11,7 @@ open Lean Bandit
 namespace Drv
 
 /-- all registered ops; each area appends its own list here -/
-def allOps : List Op := coreOps ++ MetricsOps.ops ++ Drv.BaselineTool.ops ++ Drv.Baseline.ops
+def allOps : List Op := coreOps ++ MetricsOps.ops ++ Drv.BaselineTool.ops ++ Drv.Baseline.ops ++ Drv.Fmt.ops
 
 def handle (line : String) : String :=
   match Json.parse line with
